@@ -56,7 +56,7 @@ def rand_op(rng, state, maxn=4):
             "set_cell", "set_cell", "set_value", "insert_cell", "append_cell", "delete_cell",
             "set_row", "insert_row", "append_row", "delete_row", "set_row_values", "set_values",
             "insert_column", "append_column", "set_column", "delete_column", "set_column_cells",
-            "transpose", "rstrip",
+            "transpose", "rstrip", "optimize_width", "csv",
         ]
     )
     if kind in ("set_cell", "insert_cell"):
@@ -89,7 +89,7 @@ def rand_op(rng, state, maxn=4):
         if h == 0:
             return {"op": "delete_column", "x": xc}
         return {"op": kind, "x": xc, "r": [rng.choice(VALS) for _ in range(h)]}
-    if kind == "transpose":
+    if kind in ("transpose", "optimize_width", "csv"):
         return {"op": kind}
     return {"op": "rstrip", "c": rng.choice((0, 1))}
 
@@ -109,6 +109,23 @@ def rand_row_op(rng, row):
     if kind == "row_set_values":
         return {"op": kind, "x": x, "r": [rng.choice([1, 2, 3, tl.E]) for _ in range(rng.randint(0, 4))]}
     return {"op": "row_rstrip", "c": rng.choice((0, 1))}
+
+
+def csv_round_trip(table) -> list:
+    """to_csv then import_from_csv; the values read back, empty string == None."""
+    import io
+
+    from odfdo.table import import_from_csv
+
+    text = table.to_csv()
+    t2 = import_from_csv(io.StringIO(text), "T2", delimiter=",")
+    out = []
+    for r in t2.traverse():
+        vals = [None if v == "" else v for v in r.get_values()]
+        while vals and vals[-1] is None:
+            vals.pop()
+        out.append([tl.val_code(v) for v in vals])
+    return out
 
 
 def strip(p):
@@ -138,11 +155,18 @@ def table_history(seed: int, nsteps: int = 12) -> list:
         except Exception:  # noqa: BLE001, S110
             pass
         o = rand_op(rng, state)
+        if o["op"] == "optimize_width" and events and events[-1]["op"]["op"] == "optimize_width":
+            o["again"] = 1
+        if o["op"] == "csv" and (len(state["cols"]) < 2 or not state["rows"]):
+            o = {"op": "optimize_width"}
         ev = {"kind": "table", "op": o}
         if not events:
             ev["pre"] = state
         try:
-            tl.apply_op(table, o, rng, rng.choice(("max", "none", "rand")))
+            if o["op"] == "csv":
+                ev["values"] = csv_round_trip(table)
+            else:
+                tl.apply_op(table, o, rng, rng.choice(("max", "none", "rand")))
         except Exception as ex:  # noqa: BLE001
             ev["exc"] = type(ex).__name__
         xml = table.serialize()
